@@ -842,6 +842,12 @@ class GeoMachine(Machine):
         npos = 2 + ch[2] % 5
         pos = [np.array([col.centre[0] + 0.1 * k, col.centre[1] - 0.2 * k,
                          top + (bot - top) * k / (npos - 1.0)]) for k in range(npos)]
+        if ch[3] % 3 == 2 and npos >= 3:
+            # a deviated well whose last leg rises again ("toe-up"), and a flat leg
+            pos[-1][2] = pos[-2][2] + 0.25 * (top - bot) / npos
+            if npos >= 4:
+                pos[1][2] = pos[0][2]
+            self.ctx.probes['well_track_not_monotonic'] += 1
         self.call(lambda: geo.add_well(self.mg.well(name, pos)), 'add_well')
 
     def op_DEL_WELL(self, ch):
